@@ -122,3 +122,10 @@ Definition p_register (q : nat) : state -> state := modc q (set_copen true).
 (* Connection(server): the object before connection_made - authrand = os.urandom(4) = n, nothing else set *)
 Definition p_new_conn (q : nat) (n : bytes) (s : state) : state :=
   set_ids (q :: ids s) (set_conns (upd (conns s) q (set_nonce n (set_made true conn0))) s).
+
+(* ---- the back-pressure deadline ---------------------------------------------------------------- *)
+(* self._deadline_timer = asyncio.ensure_future(deadline_timer()) where the coroutine starts with await asyncio.sleep(n):
+   n seconds left; .cancel() (with `= None`): no task *)
+Definition p_start_timer (q : nat) (n : nat) : state -> state := modc q (set_timer (Some n)).
+Definition p_cancel_timer (q : nat) : state -> state := modc q (set_timer None).
+Definition timer_running (c : conn) : bool := match timer c with Some _ => true | None => false end.
